@@ -144,14 +144,26 @@ use bytes::BytesMut;
 use core::hash::BuildHasher;
 use core::ops::{Deref, DerefMut};
 use core::{fmt, mem};
+#[cfg(all(feature = "alloc", not(all(domain_verif, feature = "std"))))]
+use hashbrown::DefaultHashBuilder;
 #[cfg(feature = "alloc")]
-use hashbrown::{DefaultHashBuilder, HashMap, HashTable};
+use hashbrown::{HashMap, HashTable};
 #[cfg(feature = "alloc")]
 use octseq::array::Array;
 #[cfg(any(feature = "alloc", feature = "bytes"))]
 use octseq::builder::infallible;
 use octseq::builder::{FreezeBuilder, OctetsBuilder, ShortBuf, Truncate};
 use octseq::octets::Octets;
+
+/// The hash builder of [`HashCompressor`] under the verification cfg.
+///
+/// `hashbrown`'s default hasher seeds itself from stack and heap addresses
+/// and the wall clock. With `--cfg domain_verif` (never set in normal builds)
+/// a fixed-key hasher is used instead so that a simulated run is a pure
+/// function of its seed even when the table holds stale entries.
+#[cfg(all(feature = "alloc", domain_verif, feature = "std"))]
+type DefaultHashBuilder =
+    core::hash::BuildHasherDefault<std::collections::hash_map::DefaultHasher>;
 
 //------------ MessageBuilder ------------------------------------------------
 
